@@ -676,6 +676,9 @@ func main() {
 		if len(os.Args) >= 5 && os.Args[3] == "--replay" {
 			os.Exit(cmdReplay(os.Args[2], os.Args[4]))
 		}
+		if len(os.Args) >= 6 && os.Args[4] == "--replay" {
+			os.Exit(cmdReplay(os.Args[2], os.Args[5]))
+		}
 		if len(os.Args) < 4 {
 			die2("usage")
 		}
